@@ -131,8 +131,29 @@ def compound_nodes_registered(ctx):
             ctx.check(f"assignment_expr[{op}]: operator node registered through add_op", ok, "add_op(<operator node>)", f"nodes={[n.cls for n in nodes]} registered={[getattr(a, 'cls', '?') for a in added]}", fn_where(idx, fi))
 
 
+def add_op_registers_what_it_returns(ctx):
+    """whatever add_op hands back is in the holder when it returns: either it was found there by name on this path, or this path put it
+    there - an operand handed back unregistered (because it carries an id from an earlier registration that a folder has undone since)
+    is used without a declaration"""
+    idx = get_index(ctx.env)
+    fi = idx.func("RZILTransformer.add_op")
+    bad = []
+    n = 0
+    for p in paths_of(fi.node):
+        if p.outcome != "return":
+            continue
+        n += 1
+        registered = any(e.kind == "call" and isinstance(e.node, ast.Call) and call_tail(e.node) == "add_op" and "il_ops_holder" in U(e.node.func) for e in p.events)
+        found = any(pol and isinstance(g, ast.Call) and call_tail(g) == "has_op" for g, pol in p.guards)
+        if not (registered or found):
+            bad.append(f"[{p.guard_text()[:90]}] returns {U(p.value)[:30]}")
+    ctx.check("add_op returns only operands that are in the holder", n >= 2 and not bad, "every returning path found the operand in the holder or registers it",
+              "; ".join(bad[:2]) or f"{n} returning paths ok", fn_where(idx, fi))
+
+
 @rule("R11.2", "C11", "unique names: add_op suffixes a post-incremented id to everything not de-duplicated by name; every created node is registered", min_instances=12)
 def r11_2(ctx):
+    add_op_registers_what_it_returns(ctx)
     idx = get_index(ctx.env)
     fg = idx.func("ILOpsHolder.get_op_count")
     box = {}
